@@ -75,6 +75,7 @@ MUST_OBSERVE = [
     "sent_while_target_down_delivered_after_restart",
     "private_reference_cases",
     "permuted_partition_order_cases",
+    "cross_events_cancelled_by_sender",
 ]
 
 NS = 1_000_000_000
@@ -170,6 +171,8 @@ def _gen_script_inner(rng: random.Random, tier: str, profile: str) -> dict:
     wchoice = rng.choice(["none", "min", "half", "third", "seventh", "rand", "none", "min"])
     if profile == "chain":  # windows as long as the smallest legal cross-partition delay
         wchoice = rng.choice(["none", "min", "min", "half"])
+    if profile == "xcancel":  # cross-partition delays of several windows
+        wchoice = rng.choice(["half", "third", "seventh", "seventh", "rand"])
     window = {
         "none": None,
         "min": minlat,
@@ -500,6 +503,47 @@ def _decorate(rng: random.Random, case: dict, profile: str, weff: float, last_pi
                     continue
                 x = new_pid()
                 case["init"].append([tx, rng.choice(case["parts"][part_of[e]]), "K", x])
+            cancels.setdefault(str(x), []).append(y)
+
+    # -- the sender cancels a cross-partition event it emitted earlier.  Only timings whose outcome a barrier
+    #    decides: cancel in the window of the send, in a window strictly between send and arrival, or in a window
+    #    after the arrival's.  (Cancel and arrival inside ONE window is a cross-thread race in the library itself.)
+    if case["links"] and (profile == "xcancel" or rng.random() < 0.12):
+        tm = _script_times(case)
+
+        def win(t):
+            return max(1, -(-(t - start_ns) // w_ns))
+
+        cross_ys = [
+            pid
+            for pid, (t, c, e) in tm.items()
+            if pid in info_parent and info_parent[pid] in tm and part_of[tm[info_parent[pid]][2]] != part_of[e]
+        ]
+        rng.shuffle(cross_ys)
+        already = {y for ys in cancels.values() for y in ys}
+        for y in cross_ys[: (rng.choice([2, 3, 5]) if profile == "xcancel" else rng.choice([1, 2]))]:
+            if y in already:
+                continue
+            a, c0, _e = tm[y]
+            sp = part_of[tm[info_parent[y]][2]]
+            wa, wc = win(a), win(c0)
+            opts = ["after"]
+            if wa - wc >= 2:
+                opts += ["between"] * 4
+            if wc < wa and start_ns + wc * w_ns > c0:
+                opts.append("same")
+            timing = rng.choice(opts)
+            if timing == "between":
+                k = rng.randrange(wc + 1, wa)
+                lo, hi = start_ns + (k - 1) * w_ns + 1, start_ns + k * w_ns
+            elif timing == "same":
+                lo, hi = c0 + 1, start_ns + wc * w_ns
+            else:
+                k = wa + rng.choice([1, 1, 2])
+                lo, hi = start_ns + (k - 1) * w_ns + 1, start_ns + k * w_ns
+            tx = rng.choice([lo, hi, rng.randrange(lo, hi + 1)])
+            x = new_pid()
+            case["init"].append([tx, rng.choice(case["parts"][sp]), "K", x])
             cancels.setdefault(str(x), []).append(y)
 
     # -- barrier gadget: a cancelled event is the partition's last heap entry at / just before a barrier,
@@ -850,8 +894,9 @@ def _entity_cls():
                     daemon=bool(self._flags.get(str(cpid), {}).get("daemon")),
                     context={"metadata": {"pid": cpid}},
                 )
-                if dst == self._part:
-                    self._registry[cpid] = ev
+                # the SENDER's partition keeps the reference (timeout / lease-expiry pattern), also for events
+                # that travel to another partition
+                self._registry[cpid] = ev
                 out.append(ev)
             return out
 
@@ -1538,6 +1583,7 @@ def check_parallel_against(case, par, seq, res: Result, tag: str):
             "cross-event" if info[pid]["cross"] else "local-event",
             f"[{tag}] pid {pid} delivered {len(par_restricted[pid])} times: {par_restricted[pid]}",
         )
+    cancelled_by_sender = {r[2] for pl in par["plogs"] for r in pl if r[0] == "c"}
     # -- conservation from the parallel run alone: every cross event sent, due <= end, delivered exactly once
     if par["status"] == "completed":
         for pid, (sp, si, stime, _stamped) in send_pos.items():
@@ -1547,6 +1593,8 @@ def check_parallel_against(case, par, seq, res: Result, tag: str):
             res.count("cross_sends_checked")
             if _is_down(down, info[pid]["target"], arr):
                 continue  # the target is crashed / paused when it arrives: dropped in every engine
+            if pid in cancelled_by_sender:
+                continue  # cancelled by its sender: the equivalence oracle judges whether it had to arrive
             if par_count[pid] == 0 and pid not in explained and pid not in missing_roots:
                 res.add(
                     "cross-event-lost",
@@ -1613,6 +1661,11 @@ def run_linked(case: dict) -> Result:
         sum(1 for pl in seq["plogs"] for r in pl if r[0] == "c") + sum(1 for f in fl.values() if f.get("cancelled")),
     )
     res.count("duplicate_link_cases", int(len({(l[0], l[1]) for l in case["links"]}) < len(case["links"])))
+    info2, _ = _script_index(case)
+    res.count(
+        "cross_events_cancelled_by_sender",
+        sum(1 for pl in seq["plogs"] for r in pl if r[0] == "c" and r[2] in info2 and info2[r[2]]["cross"]),
+    )
     ps_ = case.get("peer_style") or {}
     res.count("private_reference_cases", int(any(v != "public" for v in ps_.values())))
     res.count("permuted_partition_order_cases", int(bool(case.get("order")) and case["order"] != sorted(case["order"])))
@@ -1883,14 +1936,15 @@ FAMILIES = {
     "members": Family("members", gen_profile("members"), run_linked, shrink=shrink_script, case_timeout=120.0),
     "faults": Family("faults", gen_profile("faults"), run_linked, shrink=shrink_script, case_timeout=120.0),
     "wiring": Family("wiring", gen_profile("wiring"), run_linked, shrink=shrink_script, case_timeout=120.0),
+    "xcancel": Family("xcancel", gen_profile("xcancel"), run_linked, shrink=shrink_script, case_timeout=120.0),
     "independent": Family("independent", gen_independent, run_independent, case_timeout=120.0),
     "config": Family("config", gen_config, run_config, case_timeout=60.0),
 }
 
 BUDGET = {
     "quick": {
-        "linked": 85,
-        "boundary": 65,
+        "linked": 75,
+        "boundary": 60,
         "idle": 24,
         "far_epoch": 40,
         "latency_link": 40,
@@ -1902,6 +1956,7 @@ BUDGET = {
         "members": 30,
         "faults": 40,
         "wiring": 30,
+        "xcancel": 40,
         "independent": 50,
         "config": 30,
     },
@@ -1919,6 +1974,7 @@ BUDGET = {
         "members": 400,
         "faults": 500,
         "wiring": 400,
+        "xcancel": 500,
         "independent": 600,
         "config": 100,
     },
